@@ -58,6 +58,8 @@ def check_one(src, mode, need_hint, variant="shipped"):
             continue
         eff = min(v, cur) if v else cur
         if need is None or eff >= need:
+            if o != base and base["k"] != "tree" and o["k"] == "err" and re.search(r"is only supported in Python \((\d+), (\d+)\) and above", o.get("msg") or ""):
+                continue  # an input that is rejected anyway may be rejected earlier by a version gate it contains
             if o != base:
                 return {"kind": "py_version-changes-result", "py_version": v, "default": _short(base), "got": _short(o)}
         else:
